@@ -268,4 +268,21 @@ func init() {
 	revBody := `(?s)\tlength := len\(sequence\)\n\tnewString := make\(\[\]rune, length\)\n\tfor _, base := range sequence \{\n\t\tlength--\n\t\tnewString\[length\] = base\n\t\}\n\treturn string\(newString\)\n\}\n\n// ComplementBase`
 	fire("C11", "reversed-in-place-stopping-short-of-the-centre", "transform/transform.go", revBody, inPlace("index < last/2"), "STATE/swap-reversal")
 	silent("C11", "reversed-in-place-up-to-the-centre", "transform/transform.go", revBody, inPlace("index < len(bases)/2"))
+	// round 15, second group: the STATE rules that match nothing on today's tree
+	forwarder := func(before, inside string) string {
+		return "import (\n\t\"sync\"\n${1}\tdecoder := xml.NewDecoder(r)\n\tvar forwarding sync.WaitGroup\n${2}" + before + "\t\t\tgo func() {\n" + inside + "\t\t\t\tdefer forwarding.Done()\n\t\t\t\terrors <- err\n\t\t\t}()\n\t\t\tbreak\n${3}\tforwarding.Wait()\n\tclose(entries)\n"
+	}
+	upParse := `(?s)import \(\n(.*?)\tdecoder := xml\.NewDecoder\(r\)\n(.*?)\t\t\terrors <- err\n\t\t\tbreak\n(.*?)\tclose\(entries\)\n`
+	fire("C20", "error-forwarder-counts-itself-in", up, upParse, forwarder("", "\t\t\t\tforwarding.Add(1)\n"), "STATE/add-inside-goroutine")
+	crosswise := func(args string) string {
+		return "\tif sequenceType == \"RNA\" {\n\t\tdnaSeqhash, err := Hash(strings.ReplaceAll(sequence, \"U\", \"T\"), \"DNA\", " + args + ")\n\t\tif err != nil {\n\t\t\treturn \"\", err\n\t\t}\n\t\treturn \"v1_R\" + strings.TrimPrefix(dnaSeqhash, \"v1_D\"), nil\n\t}\n"
+	}
+	rnaStep := `\tif sequenceType == "RNA" \{\n\t\tsequence = strings\.ReplaceAll\(sequence, "U", "T"\)\n\t\}\n`
+	fire("C05", "flags-handed-over-crosswise", sh, rnaStep, crosswise("doubleStranded, circular"), "STATE/swapped-arguments")
+	silent("C05", "flags-handed-over-in-order", sh, rnaStep, crosswise("circular, doubleStranded"))
+	pjParse := `(?s)func Parse\(file \[\]byte\) poly\.Sequence \{\n(.*?)\tsequence\.Features = \[\]poly\.Feature\{\}\n`
+	fire("C15", "features-collected-in-a-package-level-list", pj, pjParse, "var featureBuffer = []poly.Feature{}\n\nfunc Parse(file []byte) poly.Sequence {\n${1}\tsequence.Features = featureBuffer[:0]\n", "STATE/global-backing")
+	silent("C15", "features-collected-in-a-capacity-limited-cut", pj, pjParse, "var featureBuffer = []poly.Feature{}\n\nfunc Parse(file []byte) poly.Sequence {\n${1}\tsequence.Features = featureBuffer[:0:0]\n")
+	twoAtomics := "import (\n\t\"strings\"\n\t\"sync/atomic\"\n)\n\nvar (\n\tlastSequence          atomic.Value\n\tlastReverseComplement atomic.Value\n)\n${1}func ReverseComplement(sequence string) string {\n\tif last, ok := lastSequence.Load().(string); ok && last == sequence {\n\t\treturn lastReverseComplement.Load().(string)\n\t}\n${2}\treverseComplement := string(newString)\n\tlastReverseComplement.Store(reverseComplement)\n\tlastSequence.Store(sequence)\n\treturn reverseComplement\n}\n\n// Complement takes"
+	fire("C11", "last-call-remembered-in-two-atomics", "transform/transform.go", `(?s)import "strings"\n(.*?)func ReverseComplement\(sequence string\) string \{\n(.*?)\treturn string\(newString\)\n\}\n\n// Complement takes`, twoAtomics, "STATE/atomic-pair")
 }
